@@ -310,10 +310,19 @@ def run_go(ops, binary="bklgo", timeout_ms=20000, mem_mb=3000):
     """Run ops through the real library. A crash (stack overflow, fatal error) kills the harness:
     the op being executed is marked {'crash': ...} and the rest are re-run in a fresh process."""
     exe = os.path.join(BIN, binary)
-    env = dict(os.environ, BKLGO_TIMEOUT_MS=str(timeout_ms), BKLGO_MEM_MB=str(mem_mb), GOMAXPROCS="4")
     res = {}
     if not ops:
         return res
+    scratch = mktemp_dir("verif-go-")       # the harness's temporary files: removed here even when it is killed
+    try:
+        return _run_go(ops, exe, timeout_ms, mem_mb, scratch)
+    finally:
+        shutil.rmtree(scratch, ignore_errors=True)
+
+
+def _run_go(ops, exe, timeout_ms, mem_mb, scratch):
+    env = dict(os.environ, BKLGO_TIMEOUT_MS=str(timeout_ms), BKLGO_MEM_MB=str(mem_mb), GOMAXPROCS="4", TMPDIR=scratch)
+    res = {}
     n = min(NCPU, max(1, len(ops) // 50 + 1))
     shards = [ops[i::n] for i in range(n)]
 
